@@ -180,7 +180,7 @@ MATCHERS = {}
 
 def check(tier, seed):
     return base.standard_check(PID, tier, seed, tasks(tier, seed), MODELS[tier], RULE, nontrivial, matchers=MATCHERS,
-                               assumptions=["termination is observed with a wall-clock limit of 4 s per call (calls "
+                               assumptions=["termination is observed with a CPU-time limit of 4 s per call (calls "
                                             "that terminate take < 10 ms) and explained by the EpsPath model",
                                             "PDA simulation judged under closure limit 40"])
 
